@@ -408,6 +408,8 @@ var probes = []probeProg{
 	{"builtin-names-in-use", "[Int.keys.len > 0, [1].len, \"ab\".len, assertEq(1, 1), Kernel.keys.len > 0, true, nil, Err.new(\"e\").type == Err].p\nassert(false)\n", ""},
 	{"rich-syntax", richSyntax, ""},
 	{"rich-syntax", richSyntax, ""},
+	// output through props that are themselves written in Pangaea (native/Obj.pangaea)
+	{"native-output", "\"np\".puts\n\"nq\".print\n[1, 2].puts\n\"end\".p\n", ""},
 	{"syntax-error", "ok := 1\nok +* 2\n", ""},
 	{"syntax-error2", "{|x| x\n", ""},
 	{"same-literal-func", "step := 10\ninc := {|x, by: step| x + by}\ninc(1).p\n\ndescribe := {|o| o.name.uc}\ndescribe({title: \"b\"})\n", ""},
@@ -524,7 +526,9 @@ func (s *C19Stats) Merge(raw json.RawMessage) error {
 
 type c19Check struct {
 	it        *harness.Interp
-	fes       []frontend
+	feNames   []string
+	fpEnv     *object.Env
+	child     bool
 	baseFP    string
 	fresh     map[string]probeResult
 	tier      string
@@ -583,13 +587,38 @@ func (c *c19Check) Init(tier string) {
 	c.freshFile = f.Name()
 }
 
+// initChild: a history process sets up ONLY the front-end it is about to drive. (Setting up
+// a second interpreter in one process is itself a history: props written in Pangaea stay
+// bound to the scope - and the IO - of the first set-up; see the known finding about
+// RunSource. An earlier version created all front-ends up front and so produced that
+// effect itself, in front-ends that never do it on their own.)
 func (c *c19Check) initChild() {
-	c.it = harness.NewInterp()
-	c.baseFP = FingerprintBuiltins(c.it.Global)
-	c.fes = []frontend{&evalFE{c.it}, runSourceFE{}}
+	c.child = true
+	c.feNames = []string{"eval", "runsource"}
 	if play.Available {
-		c.fes = append(c.fes, &playFE{play.NewExecutor()})
+		c.feNames = append(c.feNames, "playground")
 	}
+}
+
+func (c *c19Check) initFE(name string) frontend {
+	var fe frontend
+	switch name {
+	case "eval":
+		c.it = harness.NewInterp()
+		c.fpEnv = c.it.Global
+		fe = &evalFE{c.it}
+	case "playground":
+		fe = &playFE{play.NewExecutor()}
+		c.fpEnv = object.NewEnvWithConsts()
+	default:
+		// RunSource sets an interpreter up per call; the first call of the process is the
+		// one that populates the built-in objects, so it is made here (empty program)
+		runscript.RunSource("", "warmup.pangaea", strings.NewReader(""), io.Discard)
+		c.fpEnv = object.NewEnvWithConsts()
+		fe = runSourceFE{}
+	}
+	c.baseFP = FingerprintBuiltins(c.fpEnv)
+	return fe
 }
 
 // freshResult runs the probe through the same front-end in a newly started process.
@@ -598,7 +627,7 @@ func (c *c19Check) freshResult(fe string, p probeProg) (probeResult, error) {
 	if r, ok := c.fresh[key]; ok {
 		return r, nil
 	}
-	if c.it != nil {
+	if c.child {
 		return probeResult{}, fmt.Errorf("no fresh reference for %s", key)
 	}
 	self, _ := os.Executable()
@@ -787,7 +816,7 @@ func (c *c19Check) runHistory(seed, run uint64, rec []uint32, s *C19Stats) []Vio
 	}
 	var rng = t
 	_ = rng
-	fe := c.fes[t.Intn(len(c.fes))]
+	fe := c.initFE(c.feNames[t.Intn(len(c.feNames))])
 	s.Frontends[fe.name()]++
 	nsteps := 1 + t.Intn(6)
 	var hist []string
@@ -813,7 +842,7 @@ func (c *c19Check) runHistory(seed, run uint64, rec []uint32, s *C19Stats) []Vio
 		hist = append(hist, fmt.Sprintf("[%s fault@%d] %s", h.kind, h.faultAt, h.src))
 		// (1) built-in singletons unchanged
 		s.FPChecks++
-		if fp := FingerprintBuiltins(c.it.Global); fp != c.baseFP {
+		if fp := FingerprintBuiltins(c.fpEnv); fp != c.baseFP {
 			name, a, b := firstDiffLine(c.baseFP, fp)
 			mk(fmt.Sprintf("C19/%s/builtin-changed/%s", fe.name(), name), nil, clipStr(a, 600), clipStr(b, 600))
 			break
@@ -842,7 +871,7 @@ func (c *c19Check) runHistory(seed, run uint64, rec []uint32, s *C19Stats) []Vio
 		}
 		// the probe is itself an evaluated program: it must leave the built-ins alone too
 		s.FPChecks++
-		if fp := FingerprintBuiltins(c.it.Global); fp != c.baseFP {
+		if fp := FingerprintBuiltins(c.fpEnv); fp != c.baseFP {
 			name, a, b := firstDiffLine(c.baseFP, fp)
 			mk(fmt.Sprintf("C19/%s/builtin-changed/%s", fe.name(), name), &p, clipStr(a, 600), clipStr(b, 600))
 			break
@@ -860,6 +889,7 @@ func (c *c19Check) runHistory(seed, run uint64, rec []uint32, s *C19Stats) []Vio
 // and header names); after each, a probe request must be answered as by a new process.
 func (c *c19Check) runHTTPHistory(seed, run uint64, t *tape.Tape, s *C19Stats) []Viol {
 	s.Frontends["http"]++
+	c.it = harness.NewInterp()
 	h, err := newHTTPHandler(c.it)
 	if err != nil {
 		s.Infra++
@@ -931,18 +961,22 @@ func (c *c19Check) runTestHistory(seed, run uint64, t *tape.Tape, s *C19Stats) [
 	n := 1 + t.Intn(3)
 	var hist []string
 	// a library file next to the tests, pulled in by relative import / invite!
-	lib := "libval := 41\npx := \"from lib\"\nlibf := {|a| a + libval}\n"
+	// (it prints while it is loaded and exports an iterator: a program that imports it gets
+	// its own evaluation of the file, whatever earlier programs imported)
+	lib := "libval := 41\npx := \"from lib\"\nlibf := {|a| a + libval}\n\"lib loaded\".p\ncounter := <{|i| yield i; recur(i + 1)}>.new(100)\n"
 	os.WriteFile(filepath.Join(dirH, "a0_lib.pangaea"), []byte(lib), 0o644)
+	os.WriteFile(filepath.Join(dirF, "a0_lib.pangaea"), []byte(lib), 0o644)
 	for i := 0; i < n; i++ {
 		src := []string{
 			"invite!(\"./a0_lib\")\nlibf(1).p\nq := libval\n",
-			"m := import(\"./a0_lib\")\nm.libval.p\nprobe := m.px\n",
+			"m := import(\"./a0_lib\")\nm.libval.p\nprobe := m.px\nm.counter.next.p\n",
+			"invite!(\"./a0_lib\")\n[counter.next, counter.next].p\n",
 			"px := 99\npf := {|a| a * 100}\npobj := {name: \"hist\"}\nprobe := 3\n",
 			"1.try.{|x| _}.A\nhx1 := 5\n",
 			"Int.bear({twice: m{self * 2}})\nq := 7\n",
 			"S := {|i| i}\nS1 := 4\n\"hist\".p\n",
 			"", "",
-		}[t.Intn(8)]
+		}[t.Intn(9)]
 		if src == "" {
 			src = handledSyntax(t)
 		}
@@ -954,6 +988,14 @@ func (c *c19Check) runTestHistory(seed, run uint64, t *tape.Tape, s *C19Stats) [
 	p := probes[t.Intn(len(probes))]
 	if p.kind == "stdin" {
 		p = probes[0]
+	}
+	if t.Chance(1, 3) {
+		// probes that load the library file themselves
+		p = []probeProg{
+			{"import-lib", "m := import(\"./a0_lib\")\n[m.libval, m.counter.next, m.counter.next].p\nm.nosuch\n", ""},
+			{"invite-lib", "invite!(\"./a0_lib\")\n[libf(1), counter.next].p\n", ""},
+			{"import-lib-twice", "a := import(\"./a0_lib\")\nb := import(\"./a0_lib\")\n[a.counter.next, b.counter.next, a.counter.next].p\n", ""},
+		}[t.Intn(3)]
 	}
 	s.Probes++
 	s.ProbeKind[p.kind]++
